@@ -57,7 +57,7 @@ def same(a, b):
     if isinstance(a, UnitV):
         return True
     if isinstance(a, StructV):
-        return a.path == b.path and len(a.fields) == len(b.fields) and all(same(x, y) for x, y in zip(a.fields, b.fields))
+        return a.path.split('::')[-1] == b.path.split('::')[-1] and len(a.fields) == len(b.fields) and all(same(x, y) for x, y in zip(a.fields, b.fields))
     if isinstance(a, TupleV):
         return len(a.items) == len(b.items) and all(same(x, y) for x, y in zip(a.items, b.items))
     if isinstance(a, EnumV):
@@ -83,7 +83,7 @@ def same(a, b):
 def changed_fields(pre, post, prefix=''):
     """names of the (nested) fields of a struct that differ between two abstract values"""
     out = []
-    if isinstance(pre, StructV) and isinstance(post, StructV) and pre.path == post.path:
+    if isinstance(pre, StructV) and isinstance(post, StructV) and pre.path.split('::')[-1] == post.path.split('::')[-1]:
         for n, x, y in zip(pre.names, pre.fields, post.fields):
             out += changed_fields(x, y, prefix + n + '.')
         return out
